@@ -155,6 +155,34 @@ def run(res, tier, seed, shard, nshards):
             for lst in (["127.0.0.0/8"], ["10.0.0.0/8"], ["192.168.0.0/16", ".a"], ["127.0.0.1/32"], ["10.0.0.1/32", "other.test"], ["172.16.0.0/12"], [dotted], [spelled], []):
                 decide(spelled, False, lst, "ipv4-other-spelling", rule="cidr-other-spelling")
                 res.count("ipv4_other_spellings_checked")
+    # (a4) one (empty) list object given as the no_proxy option again and again while the environment's no_proxy changes: every
+    #      decision reads the environment of its own moment, and the caller's list comes back as it went in
+    if shard == 5 % nshards:
+        for first_env, second_env in (("exempt.test,10.0.0.0/8", None), (None, "exempt.test"), ("a.test", "exempt.test"), ("*", None), ("exempt.test", "other.test")):
+            for container in ("list", "tuple-then-list"):
+                shared = []
+                H.scrub_env()
+                outcomes = []
+                for envv in (first_env, second_env, first_env):
+                    H.scrub_env()
+                    if envv is not None:
+                        os.environ["no_proxy"] = envv
+                    try:
+                        got = gpi("exempt.test", False, "proxy.test", 3128, None, shared if container == "list" else (tuple(shared) if not outcomes else shared))
+                    except Exception as e:  # noqa
+                        res.violation("get_proxy_info-raised", f"shared empty no_proxy list: {type(e).__name__}: {e}", {"env": envv}, exc_type=type(e).__name__, rule="shared-list")
+                        break
+                    finally:
+                        H.scrub_env()
+                    exp_exempt = bool(envv) and ref_exempt("exempt.test", [x.strip() for x in envv.split(",")])
+                    outcomes.append((envv, got[0] is None, exp_exempt))
+                res.case(("shared-empty-list", first_env, second_env, container), nontrivial=True)
+                res.count("shared_no_proxy_list_cases")
+                wrong = [(e, g, x) for (e, g, x) in outcomes if g != x]
+                if wrong or shared != []:
+                    res.violation("no_proxy-decision", f"one empty no_proxy list object reused while $no_proxy went {first_env!r} -> {second_env!r} -> {first_env!r}: "
+                                  f"(environment, exempt, expected) = {outcomes}; the caller's list is now {shared!r}", {"host": "exempt.test", "no_proxy": shared},
+                                  expected_exempt=None, rule="shared-list")
     # (b) IPv4 blocks -------------------------------------------------------------
     for p in range(33):
         if p % nshards != shard:
@@ -261,6 +289,7 @@ def run(res, tier, seed, shard, nshards):
                  ("firstname.lastname@example-corporation.test", "tok_" + "A1b2C3d4" * 9), ("u" * 28, "p" * 29), ("u" * 28, "p" * 28),
                  # credentials whose base64 form uses the characters + and / (and padding of every length)
                  ("svc", "pass?"), ("a", "x>y?z~"), ("~~~", ">>>"), ("k?", "?>"), ("ab", "~"),
+                 ("svc+ws", "Tr1+x+9"), ("a+b", "c d+e"), ("u!$'()*,;=", "p+%2B"),
                  ("".join(rng.choice("abcXYZ019?>~<|}{") for _ in range(rng.randrange(1, 9))), "".join(rng.choice("abcXYZ019?>~<|}{") for _ in range(rng.randrange(1, 12))))]
         idx = 0
         for reply in replies:
@@ -343,7 +372,8 @@ def tunnel_case(res, W, rng, reply, secure, cred, via, exempt=False):
         auth = ""
         if cred:
             from urllib.parse import quote
-            auth = quote(cred[0]) + (":" + quote(cred[1]) if cred[1] else "") + "@"
+            # sub-delimiters such as + ! $ ' ( ) * , ; = stand for themselves in the userinfo part (RFC 3986): written unescaped
+            auth = quote(cred[0], safe="+!$'()*,;=") + (":" + quote(cred[1], safe="+!$'()*,;=") if cred[1] else "") + "@"
         os.environ["https_proxy" if secure else "http_proxy"] = f"http://{auth}proxy.test:3128"
     if exempt:
         opts["http_no_proxy"] = ["origin.test"]
